@@ -5,7 +5,7 @@
 (* record violates ({} = the record is allowed by the property).  Clauses     *)
 (* whose name starts with "H_" are sanity conditions on the harness input,    *)
 (* not property clauses (a failure there is INCONCLUSIVE, never a VIOLATION). *)
-EXTENDS Integers, Sequences, SequencesExt, FiniteSets, MavFrame
+EXTENDS Integers, Sequences, SequencesExt, FiniteSets, MavFrame, MavMessage
 
 Failed(clauses) == {clauses[i][1] : i \in {j \in 1..Len(clauses) : ~clauses[j][2]}}
 
@@ -40,4 +40,38 @@ Check_VEC(r) ==
                <<"write_no_panic", ~r.panic>>,
                <<"write_accepted", ~r.err>>,
                <<"write_layout", r.out = r.bytes>> >>)
+-----------------------------------------------------------------------------
+\* C03 - a message definition (reflected Go struct `raw`) as initialised by the library:
+\* CRC_EXTRA and the base / extended payload sizes are those the spec derives
+Check_DEF(r, raw) ==
+  IF ~DefValid(raw) THEN Failed(<< <<"no_panic", ~r.panic>>, <<"malformed_rejected", ~r.init_ok>> >>)
+  ELSE LET def == FromGo(raw) IN
+       Failed(<< <<"no_panic", ~r.panic>>,
+                 <<"init_ok", r.init_ok>>,
+                 <<"crc_extra", r.crc = CrcExtra(def)>>,
+                 <<"size_base", r.size_v1 = SizeBase(def)>>,
+                 <<"size_ext", r.size_v2 = SizeExt(def)>>,
+                 <<"fits_255", SizeExt(def) <= 255>> >>)
+
+\* C03 / C04 - message.ReadWriter.Write of a value assignment, then Read of the result
+Check_ENC(r, raw) ==
+  LET def == FromGo(raw) IN
+  Failed(<< <<"no_panic", ~r.panic /\ ~r.dec_panic>>,
+            <<"layout", r.out = Encode(def, r.vals, r.v2)>>,
+            <<"v2_min_one_byte", r.v2 /\ SizeExt(def) > 0 => Len(r.out) >= 1>>,
+            <<"v2_no_trailing_zero", r.v2 /\ Len(r.out) > 1 => r.out[Len(r.out)] # 0>>,
+            <<"v1_exact_base", ~r.v2 => Len(r.out) = SizeBase(def)>>,
+            <<"decodes", r.dec_ok>>,
+            <<"round_trip", r.dec_ok => r.dec = Canon(def, r.vals, r.v2)>>,
+            <<"buffer_untouched", ~r.src_mod /\ ~r.tail_mod>> >>)
+
+\* C04 - message.ReadWriter.Read of an arbitrary payload
+Check_DEC(r, raw) ==
+  LET def == FromGo(raw)
+      d == Decode(def, r["in"], r.v2)
+  IN Failed(<< <<"no_panic", ~r.panic>>,
+               <<"ok_iff_spec", r.ok = d.ok>>,
+               <<"values", (r.ok /\ d.ok) => r.vals = d.vals>>,
+               <<"payload_untouched", ~r.src_mod>>,
+               <<"tail_untouched", ~r.tail_mod>> >>)
 =============================================================================
